@@ -136,8 +136,10 @@ func c12Case(cs int64) (map[string]string, string, string) {
 				"---\napiVersion: v1\nkind: ConfigMap\nmetadata: &m\n  name: cyc2\n  labels: {<<: *m}\n", "---\na: &a [*a]\n"})
 			return files, "/w", "rich:alias-cycle"
 		}
-		if r.Intn(15) == 0 {
-			files[pickS(r, []string{"/w/crd.json", "/w/cfg.yaml", "/w/f.txt", "/w/e.env", "/w/p.yaml"})] = pickS(r, []string{"", "\n", "{", "null"})
+		if r.Intn(8) == 0 {
+			// a referenced file that is empty, blank (white space only), truncated or a bare null
+			files[pickS(r, []string{"/w/crd.json", "/w/cfg.yaml", "/w/f.txt", "/w/e.env", "/w/p.yaml", "/w/jp.json", "/w/jp.yaml", "/w/jp.json", "/w/list.yaml"})] =
+				pickS(r, []string{"", "\n", "{", "null", " ", "\t", "\r\n", "  \n\n", "[", "- ", "---\n"})
 			return files, "/w", "rich:empty-file"
 		}
 		docs := splitYAMLDocs(files[fn])
@@ -360,6 +362,16 @@ patchesJson6902:
     - op: add
       path: /data/j
       value: j
+- target:
+    version: v1
+    kind: ConfigMap
+    name: cm
+  path: jp.json
+- target:
+    version: v1
+    kind: ConfigMap
+    name: cm
+  path: jp.yaml
 replacements:
 - source:
     kind: ConfigMap
@@ -465,6 +477,8 @@ items:
 `,
 		"/w/comp/kustomization.yaml": "apiVersion: kustomize.config.k8s.io/v1alpha1\nkind: Component\nconfigMapGenerator:\n- name: cg\n  literals:\n  - c=d\n",
 		"/w/p.yaml":                  "apiVersion: apps/v1\nkind: Deployment\nmetadata:\n  name: d\nspec:\n  template:\n    spec:\n      containers:\n      - name: main\n        env:\n        - name: P\n          value: q\n",
+		"/w/jp.json":                 `[{"op": "add", "path": "/data/jf", "value": "jf"}]`,
+		"/w/jp.yaml":                 "- op: add\n  path: /data/jy\n  value: jy\n",
 		"/w/f.txt":                   "file content\n",
 		"/w/e.env":                   "K=V\n",
 		"/w/cfg.yaml":                "nameReference:\n- kind: ConfigMap\n  fieldSpecs:\n  - path: spec/cmRef\n    kind: MyKind\n",
